@@ -422,9 +422,11 @@ class WsgiApplication(HttpBase):
         # consume the generator to get the length
         p_ctx.out_string = list(p_ctx.out_string)
 
+        # the handlers of this event may still alter the response
+        self.event_manager.fire_event('wsgi_exception', p_ctx)
+
         p_ctx.transport.resp_headers['Content-Length'] = \
                                     str(sum((len(s) for s in p_ctx.out_string)))
-        self.event_manager.fire_event('wsgi_exception', p_ctx)
 
         start_response(p_ctx.transport.resp_code,
                                 _gen_http_headers(p_ctx.transport.resp_headers))
